@@ -11,7 +11,7 @@
    any interleaving, a crash of any process between any two atomic steps (a write is five steps:
    truncate, three growing prefixes, complete). *)
 From Coq Require Import List Arith.
-From Verif.C20 Require Import Model Proofs Faults.
+From Verif.C20 Require Import Model Proofs Faults Local.
 Import ListNotations.
 
 (* The invariant holds in the empty cache directory and is kept by every step. *)
@@ -186,3 +186,50 @@ Theorem clear_during_build_refuted : forall orc,
   outcome_of (step New orc (clear_cache (run New orc tr_before_mkdtemp init)) (Step 0)) 0 = Some Exn.
 Proof. exact clear_during_build_refuted_l. Qed.
 Print Assumptions clear_during_build_refuted.
+
+(* ---- locality (Local.v) ---- *)
+
+(* A request for form n neither reads nor writes the entry of any other form: two directories that differ
+   only in the final .so entries of OTHER forms lead the process through the same states, step by step. *)
+Theorem request_is_local : forall orc n fuel st st' p q,
+  agree n st st' -> procs st p = Some q -> pform q = n ->
+  agree n (solo New orc fuel st p) (solo New orc fuel st' p).
+Proof. exact agree_solo. Qed.
+Print Assumptions request_is_local.
+
+(* recovery, complete case analysis for EVERY combination of corrupt files: whatever the directory holds
+   (any .pyx/.c/.o, any left-over build directories of dead processes, any entries of other forms -- even
+   ones on which dlopen would crash --, MODDIR present or not), the outcome of a fresh request for n is decided
+   by its own entry alone: a loadable entry is returned, an absent or rejected one is rebuilt into the right
+   assembler, and only a prefix in a crash class kills the interpreter. *)
+Theorem fresh_request_outcome : forall orc st p n,
+  settled st ->
+  (forall p, procs st p = None -> forall r, files st (Tmp p r) = Absent) ->
+  procs st p = None ->
+  outcome_of (solo New orc FUEL (step New orc st (Spawn p n)) p) p =
+  Some (match load orc (files st (Final So n)) with
+        | LOk c => Ok c | LErr => Ok n | LCrash => Death end).
+Proof. exact fresh_request_outcome_l. Qed.
+Print Assumptions fresh_request_outcome.
+
+(* NOT PROVED (clause by clause; what is left to the correspondence run of harness/props/c20.py):
+   - "compilation interrupted at any point ... partial, truncated or corrupt generated source, C file, object
+     file or shared object": PROVED for the model (recovery, recovery_after_faults, fresh_request_outcome,
+     final_entries_complete).  Not proved: that the real stages write their outputs monotonically (a crash
+     inside a stage leaves a PREFIX, one of five size classes) -- Cython, gcc and ld are not modelled; the tie
+     emulates these states by truncating finished outputs.
+   - "the next request in a fresh process succeeds and returns a CORRECT assembler": the model's [Complete n]
+     means "the artefact generated from the source of form n"; that this artefact assembles the matrix of the
+     form is C01's subject and is only tested here (matrix compared with the ahead-of-time assemblers).
+   - "never crashes the interpreter": proved relative to the oracle [orc]; what dlopen does with a damaged file
+     (orc) is measured on every run, not proved.  crash_class_kills shows the one excluded fault really kills
+     (open finding impl:interpreter-death:dmg-so-Header).
+   - "any number of processes ... concurrently": PROVED for the model (race_safety, race_liveness,
+     cache_dir_exists) under the assumptions that rename(2) is atomic, mkdtemp names are unique (Tmp is indexed
+     by pid) and a Python-level step between two file-system calls is atomic.  These are not proved.
+   - "an entry once completed is never overwritten by different content": PROVED at the granularity of the
+     model (completed_never_overwritten: content = the form the .so was generated from).  Byte identity of two
+     builds of the same source is not claimed (and false: build paths differ in the debug info).
+   - digest injectivity (SHAKE-128, 64 bit) is an idealisation (digest_names is true by construction).
+   - the in-process dictionary of compile_vform (compile.py:120-132) and compile_vforms are not modelled
+     here (C13 models the cache key). *)
